@@ -1376,12 +1376,29 @@ pub fn divide() -> impl Function {
     ))
 }
 
+/// The remainder of the division of `a` by `b`: not defined for a null divisor
+fn checked_modulo(a: i64, b: i64) -> Option<i64> {
+    if b == 0 {
+        None
+    } else {
+        // `wrapping_rem` only differs from `%` on `i64::MIN % -1`, which is 0
+        Some(a.wrapping_rem(b))
+    }
+}
+
 /// The modulo
 pub fn modulo() -> impl Function {
-    Pointwise::bivariate(
-        (data_type::Integer::default(), data_type::Integer::default()),
-        data_type::Integer::default(),
-        |a, b| (a % b).into(),
+    Pointwise::new(
+        data_type::Struct::from_data_types(&[DataType::integer(), DataType::integer()]).into(),
+        DataType::integer(),
+        Arc::new(|ab| {
+            let ab = value::Struct::try_from(ab)?;
+            let a = i64::try_from(ab[0].as_ref().clone())?;
+            let b = i64::try_from(ab[1].as_ref().clone())?;
+            checked_modulo(a, b)
+                .map(Value::from)
+                .ok_or_else(|| Error::other(format!("{a} % {b} is not defined")))
+        }),
     )
 }
 
